@@ -267,6 +267,9 @@ func (exec *Executor) autoWrap() bool              { return exec.path.IsLax() }
 
 // execute executes exec.path against value, returning selected values or an error.
 func (exec *Executor) execute(ctx context.Context, value any) (*valueList, error) {
+	if verifOn {
+		defer verifCall(ctx, exec)()
+	}
 	exec.root = value
 	exec.current = value
 	vals := newList()
@@ -277,6 +280,9 @@ func (exec *Executor) execute(ctx context.Context, value any) (*valueList, error
 // exists returns true if the path passed to New() returns at least one item
 // for json.
 func (exec *Executor) exists(ctx context.Context, json any) (resultStatus, error) {
+	if verifOn {
+		defer verifCall(ctx, exec)()
+	}
 	exec.root = json
 	exec.current = json
 	return exec.query(ctx, nil, exec.path.Root(), json)
